@@ -5,6 +5,9 @@
 //! registration orders of {exact route, registry mount, struct mount, middleware x2}: middleware runs
 //! exactly once per request for every route, exact route beats mounted prefix. (C) prefix/path boundary
 //! pairs. (D) a recording RepeStruct: segments == RFC 6901 tokens (independent tokenizer), depth 0..40.
+//! (E) the servers as one more entry point: the same (router, query, body) cases sent by a raw peer to a loopback Server and
+//! AsyncServer must reach the same handler with the same tokens / middleware runs / response as Router::get + handle_view.
+//! (F) router histories: lookups interleaved with registrations (and clones) behave as on a router built from scratch.
 
 use crate::common::*;
 use repe::server::HandlerErased;
@@ -642,6 +645,524 @@ pub fn run(args: &Args) -> Report {
         }
     }
     rep.set("struct_depths_covered", json!(depth_seen.len()));
+    if !miri {
+        server_entry_point(args, &mut rep, &mut rng);
+    }
+    router_histories(args, &mut rep, &mut rng);
     quiet_panics(false);
     rep
+}
+
+// ======================================================================================================================
+// (E) the servers' resolution step as one more entry point of the differential
+// ======================================================================================================================
+
+type Seen = Arc<Mutex<Vec<(Vec<String>, bool)>>>;
+
+struct Fam {
+    name: &'static str,
+    router: Router,
+    rec: Seen,
+    hits: Arc<AtomicU64>,
+    prefixes: Vec<&'static str>,
+}
+
+fn server_families() -> Vec<Fam> {
+    let mkreg = || {
+        let reg = Arc::new(Registry::new());
+        reg.register_value("/x", json!({"v": 1})).unwrap();
+        reg.register_value("/y", json!({"z": [1, 2]})).unwrap();
+        reg
+    };
+    let route = |r: Router, path: &str, name: &'static str| r.with_json(path, move |v| Ok(json!({"route": name, "got": v})));
+    let mut out = vec![];
+    let mut fam = |name: &'static str, prefixes: Vec<&'static str>, n_mw: usize, build: &dyn Fn(Router, &Seen) -> Router| {
+        let rec: Seen = Arc::new(Mutex::new(vec![]));
+        let hits = Arc::new(AtomicU64::new(0));
+        let mut router = build(Router::new(), &rec);
+        for _ in 0..n_mw {
+            let h = hits.clone();
+            router = router.with_middleware(move |req: &Message, next: Next<'_>| {
+                h.fetch_add(1, Ordering::SeqCst);
+                next.run(req)
+            });
+        }
+        out.push(Fam { name, router, rec, hits, prefixes });
+    };
+    fam("root-struct", vec![""], 1, &|r, rec| route(r, "/json", "json").with_struct("", Recorder { seen: rec.clone() }).0);
+    fam("root-struct-slash", vec!["/"], 0, &|r, rec| r.with_struct("/", Recorder { seen: rec.clone() }).0);
+    fam("root-registry", vec![""], 1, &|r, _| r.with_registry("", mkreg()));
+    fam("root-registry-slash", vec!["/"], 0, &|r, _| r.with_registry("/", mkreg()));
+    fam("mounts", vec!["/ab", "/st"], 2, &|r, rec| route(route(r.with_registry("/ab", mkreg()).with_struct("/st", Recorder { seen: rec.clone() }).0, "/ab/x", "ab-x"), "/st", "st"));
+    fam("escaped-mounts", vec!["/a~1b", "/é"], 0, &|r, rec| r.with_struct("/a~1b", Recorder { seen: rec.clone() }).0.with_registry("/é", mkreg()));
+    fam("exact-only", vec![], 1, &|r, _| route(route(route(r, "", "empty"), "/", "slash"), "/json", "json"));
+    fam("root-registry-then-root-struct", vec![""], 0, &|r, rec| route(r.with_registry("", mkreg()).with_struct("", Recorder { seen: rec.clone() }).0, "/x", "x"));
+    fam("root-struct-then-root-registry", vec![""], 1, &|r, rec| r.with_struct("", Recorder { seen: rec.clone() }).0.with_registry("", mkreg()));
+    out
+}
+
+fn query_class(q: &str, prefixes: &[&str]) -> &'static str {
+    if q.is_empty() {
+        return "empty-query";
+    }
+    if q == "/" {
+        return "slash";
+    }
+    for p in prefixes {
+        if p.is_empty() || *p == "/" {
+            continue;
+        }
+        if q == *p {
+            return "mount-prefix";
+        }
+        if q.strip_prefix(p) == Some("/") {
+            return "mount-prefix-slash";
+        }
+        if q.strip_prefix(p).is_some_and(|rest| rest.starts_with('/')) {
+            return "below-mount";
+        }
+    }
+    "other"
+}
+
+#[derive(Debug, Clone, PartialEq)]
+struct Observed {
+    ec: u32,
+    body_format: u16,
+    query: Vec<u8>,
+    body: Vec<u8>,
+    tokens: Vec<(Vec<String>, bool)>,
+    middleware_runs: u64,
+}
+
+/// One request/response exchange of a raw peer speaking through the independent codec. Err = scaffolding trouble.
+fn raw_exchange(s: &mut std::net::TcpStream, id: u64, query: &[u8], body: &[u8], body_format: u16) -> Result<crate::oracle::Frame, String> {
+    use crate::oracle::{SPEC, SpecHeader, frame};
+    use std::io::{Read, Write};
+    let h = SpecHeader { spec: SPEC, version: 1, id, query_format: QueryFormat::JsonPointer as u16, body_format, ..Default::default() };
+    s.write_all(&frame(h, query, body)).map_err(|e| format!("write: {e}"))?;
+    let mut hdr = [0u8; 48];
+    s.read_exact(&mut hdr).map_err(|e| format!("read header: {e}"))?;
+    let rh = SpecHeader::decode(&hdr);
+    if !rh.consistent() || rh.length > (1 << 22) {
+        return Err(format!("response header not a consistent REPE header: {rh:?}"));
+    }
+    let mut rest = vec![0u8; (rh.length - 48) as usize];
+    s.read_exact(&mut rest).map_err(|e| format!("read payload: {e}"))?;
+    let q = rh.query_length as usize;
+    Ok(crate::oracle::Frame { header: rh, query: rest[..q].to_vec(), body: rest[q..].to_vec(), at: 0 })
+}
+
+fn server_entry_point(args: &Args, rep: &mut Report, rng: &mut Rng) {
+    use std::time::Duration;
+    let t = Some(Duration::from_secs(20));
+    let rt = match tokio::runtime::Builder::new_multi_thread().worker_threads(2).enable_all().build() {
+        Ok(rt) => rt,
+        Err(e) => return rep.inconclusive(format!("server entry point: tokio runtime: {e}")),
+    };
+    const FIXED: [&str; 30] = [
+        "", "/", "//", "/json", "/json/", "/nope", "/x", "/y", "/y/z", "/y/z/1", "/x/y", "/~0", "/~1", "/a~1b", "/a~1b/", "/a~1b/c~0d/~1", "/é", "/é/", "/é/x", "/st", "/st/", "/st/field/~1~0", "/ab", "/ab/", "/ab/x",
+        "/abx", "/ab/x/y", "/ab/y", "x", "/k/k/k/k/k/k/k/k/k/k/k/k/k/k/k/k/k/k",
+    ];
+    const TOK: [&str; 10] = ["a", "", "0", "a/b", "m~n", "~", "é", "x y", "deny", "x"];
+    let extra = args.budget(12, 200) as usize;
+    let mut exchanges = 0u64;
+    let mut resolved_cases = 0u64;
+    let mut not_found_cases = 0u64;
+    let mut state_dependent = 0u64;
+    let mut id = 1000u64;
+    'fam: for (fi, fam) in server_families().into_iter().enumerate() {
+        // a blocking and an async server over the same router value the direct path uses
+        let srv = repe::Server::new(fam.router.clone()).read_timeout(t).write_timeout(t);
+        let addr_b = match srv.listen("127.0.0.1:0").and_then(|l| l.local_addr().map(|a| (l, a))) {
+            Ok((l, a)) => {
+                std::thread::spawn(move || {
+                    let _ = srv.serve(l);
+                });
+                a
+            }
+            Err(e) => {
+                rep.inconclusive(format!("server entry point: listen: {e}"));
+                continue;
+            }
+        };
+        let asrv = repe::AsyncServer::new(fam.router.clone()).read_timeout(t).write_timeout(t);
+        let addr_a = match rt.block_on(async {
+            let l = repe::AsyncServer::listen("127.0.0.1:0").await?;
+            let a = l.local_addr()?;
+            tokio::spawn(async move {
+                let _ = asrv.serve(l).await;
+            });
+            Ok::<_, std::io::Error>(a)
+        }) {
+            Ok(a) => a,
+            Err(e) => {
+                rep.inconclusive(format!("server entry point: async listen: {e}"));
+                continue;
+            }
+        };
+        let mut conns = vec![];
+        for (sname, addr) in [("server", addr_b), ("async_server", addr_a)] {
+            match std::net::TcpStream::connect(addr) {
+                Ok(s) => {
+                    let _ = s.set_read_timeout(Some(Duration::from_secs(10)));
+                    let _ = s.set_write_timeout(Some(Duration::from_secs(10)));
+                    let _ = s.set_nodelay(true);
+                    conns.push((sname, s));
+                }
+                Err(e) => {
+                    rep.inconclusive(format!("server entry point: connect {sname}: {e}"));
+                    continue 'fam;
+                }
+            }
+        }
+        let mut queries: Vec<String> = FIXED.iter().map(|s| s.to_string()).collect();
+        for p in &fam.prefixes {
+            let p = p.trim_end_matches('/');
+            queries.extend([p.to_string(), format!("{p}/"), format!("{p}/c"), format!("{p}c"), format!("{p}/c/~1d")]);
+        }
+        let mut r = rng.fork(0xE000 + fi as u64);
+        for _ in 0..extra {
+            let root = *r.pick(&["", "", "/st", "/ab", "/a~1b", "/é"]);
+            let depth = r.usize_below(20);
+            let rel: String = (0..depth).map(|_| format!("/{}", esc(r.pick(&TOK)))).collect();
+            queries.push(format!("{root}{rel}"));
+        }
+        for q in &queries {
+            for with_body in [false, true] {
+                id += 1;
+                let body: Vec<u8> = if with_body { serde_json::to_vec(&json!({"k": id})).unwrap() } else { vec![] };
+                let wire = crate::oracle::frame(
+                    crate::oracle::SpecHeader { spec: crate::oracle::SPEC, version: 1, id, query_format: QueryFormat::JsonPointer as u16, body_format: BodyFormat::Json as u16, ..Default::default() },
+                    q.as_bytes(),
+                    &body,
+                );
+                let Ok(view) = MessageView::from_slice(&wire) else {
+                    rep.inconclusive("server entry point: harness built an unparsable frame");
+                    return;
+                };
+                let req = Message::builder().id(id).query_str(q).query_format(QueryFormat::JsonPointer).body_bytes(body.clone()).body_format(BodyFormat::Json).build();
+                // the reference: Router::get + handle_view (None when the router does not resolve the path)
+                let direct = |fam: &Fam| -> Result<Option<Observed>, String> {
+                    fam.rec.lock().unwrap().clear();
+                    let before = fam.hits.load(Ordering::SeqCst);
+                    let Some(h) = fam.router.get(q) else {
+                        return Ok(None);
+                    };
+                    let nm = catching(|| h.handle_view(&view, &CallContext::detached(q))).map(|x| norm(x, &req))?;
+                    Ok(Some(Observed { ec: nm.ec, body_format: nm.body_format, query: nm.query, body: nm.body, tokens: fam.rec.lock().unwrap().clone(), middleware_runs: fam.hits.load(Ordering::SeqCst) - before }))
+                };
+                let Ok(want) = direct(&fam) else {
+                    continue; // a panicking handler is judged by part (A)/(D), not sent to a server thread
+                };
+                let mut got = vec![];
+                for (sname, s) in conns.iter_mut() {
+                    fam.rec.lock().unwrap().clear();
+                    let before = fam.hits.load(Ordering::SeqCst);
+                    match raw_exchange(s, id, q.as_bytes(), &body, BodyFormat::Json as u16) {
+                        Ok(f) if f.header.id == id => {
+                            exchanges += 1;
+                            got.push((*sname, Observed { ec: f.header.ec, body_format: f.header.body_format, query: f.query, body: f.body, tokens: fam.rec.lock().unwrap().clone(), middleware_runs: fam.hits.load(Ordering::SeqCst) - before }));
+                        }
+                        Ok(f) => {
+                            rep.inconclusive(format!("server entry point: {sname} answered request {id} with id {}", f.header.id));
+                            continue 'fam;
+                        }
+                        Err(e) => {
+                            rep.inconclusive(format!("server entry point: {} {sname} exchange for query {q:?}: {e}", fam.name));
+                            continue 'fam;
+                        }
+                    }
+                }
+                // requests that write may change what the next identical request answers: judge only cases whose direct
+                // answer is the same before and after the servers handled them
+                if direct(&fam).ok().as_ref() != Some(&want) {
+                    state_dependent += 1;
+                    continue;
+                }
+                rep.eval();
+                let qc = query_class(q, &fam.prefixes);
+                rep.distinct(&("server-entry", fam.name, qc, q, with_body));
+                match &want {
+                    Some(_) => resolved_cases += 1,
+                    None => not_found_cases += 1,
+                }
+                if exchanges <= 4 {
+                    rep.sample(json!({"part": "server-entry", "family": fam.name, "query": q, "with_body": with_body, "direct": format!("{:?}", want.as_ref().map(|w| (w.ec, String::from_utf8_lossy(&w.body).to_string(), &w.tokens)))}));
+                }
+                for (sname, obs) in &got {
+                    let same = match &want {
+                        Some(w) => obs == w,
+                        // unresolved: no handler or middleware may run and the answer cannot be a success (which error code
+                        // names "nobody owns this path" is not part of the statement)
+                        None => obs.ec != ErrorCode::Ok as u32 && obs.tokens.is_empty() && obs.middleware_runs == 0,
+                    };
+                    if !same {
+                        let show = |o: &Observed| format!("ec={} body_format={} query={:?} body={:?} struct-saw={:?} middleware-runs={}", o.ec, o.body_format, String::from_utf8_lossy(&o.query), trunc(&String::from_utf8_lossy(&o.body), 120), o.tokens, o.middleware_runs);
+                        rep.violation(
+                            format!("C07:server-route-differs:{sname}:{}:{qc}", fam.name),
+                            format!(
+                                "router family {} (mount prefixes {:?}), query {q:?} (body: {with_body}): Router::get + handle_view -> {}; the same request through {sname} -> {}",
+                                fam.name,
+                                fam.prefixes,
+                                match &want {
+                                    Some(w) => show(w),
+                                    None => "no handler (an error answer expected, nothing reached)".to_string(),
+                                },
+                                show(obs)
+                            ),
+                            json!({"family": fam.name, "query": q, "with_body": with_body, "server": sname}),
+                        );
+                    }
+                }
+            }
+        }
+    }
+    rep.set("server_entry_exchanges", json!(exchanges));
+    rep.set("server_entry_cases_resolved", json!(resolved_cases));
+    rep.set("server_entry_cases_not_found", json!(not_found_cases));
+    rep.set("server_entry_state_dependent_skipped", json!(state_dependent));
+    if exchanges == 0 {
+        rep.inconclusive("server entry point: no request/response exchange with a server was observed");
+    }
+    rt.shutdown_background();
+}
+
+// ======================================================================================================================
+// (F) router histories: lookups interleaved with registrations on one Router value, and clones taken on the way
+// ======================================================================================================================
+
+#[derive(Clone, Debug)]
+enum Reg {
+    Route(String, u32),
+    Registry(String, u32),
+    Struct(String, u32),
+    Mw(u32),
+}
+
+impl Reg {
+    fn kind(&self) -> &'static str {
+        match self {
+            Reg::Route(..) => "route",
+            Reg::Registry(..) => "registry",
+            Reg::Struct(..) => "struct",
+            Reg::Mw(..) => "middleware",
+        }
+    }
+}
+
+struct IdRecorder {
+    id: u32,
+    log: Log,
+}
+impl RepeStruct for IdRecorder {
+    fn repe_handle(&mut self, segments: &[&str], body: Option<Value>) -> Result<Option<Value>, StructError> {
+        self.log.lock().unwrap().push(format!("struct{}:{segments:?}:{}", self.id, body.is_some()));
+        Ok(Some(json!({"struct": self.id, "n": segments.len()})))
+    }
+}
+
+/// Apply one registration. `in_place`: the `register_*` forms on the existing value; otherwise the consuming builder forms.
+fn apply_reg(router: &mut Router, reg: &Reg, log: &Log, in_place: bool) {
+    let taken = || Router::new();
+    match reg {
+        Reg::Route(path, k) => {
+            let (l, k) = (log.clone(), *k);
+            let r = std::mem::replace(router, taken());
+            *router = r.with_json(path, move |_v| {
+                l.lock().unwrap().push(format!("route{k}"));
+                Ok(json!({"route": k}))
+            });
+        }
+        Reg::Registry(prefix, k) => {
+            let registry = Arc::new(Registry::new());
+            registry.register_value("/y", json!(format!("reg{k}:y"))).unwrap();
+            registry.register_value("/k", json!({"x": k})).unwrap();
+            if in_place {
+                router.register_registry(prefix, registry);
+            } else {
+                let r = std::mem::replace(router, taken());
+                *router = r.with_registry(prefix, registry);
+            }
+        }
+        Reg::Struct(prefix, k) => {
+            let s = IdRecorder { id: *k, log: log.clone() };
+            if in_place {
+                router.register_struct(prefix, s);
+            } else {
+                let r = std::mem::replace(router, taken());
+                *router = r.with_struct(prefix, s).0;
+            }
+        }
+        Reg::Mw(k) => {
+            let (l, k) = (log.clone(), *k);
+            let mw = move |req: &Message, next: Next<'_>| {
+                l.lock().unwrap().push(format!("mw{k}"));
+                next.run(req)
+            };
+            if in_place {
+                router.register_middleware(mw);
+            } else {
+                let r = std::mem::replace(router, taken());
+                *router = r.with_middleware(mw);
+            }
+        }
+    }
+}
+
+/// Resolve and dispatch one read request; the outcome and what ran (middlewares, handler identity, struct tokens) on the way.
+fn ask_router(router: &Router, path: &str, via_view: bool, log: &Log) -> (String, Vec<String>) {
+    log.lock().unwrap().clear();
+    let req = Message::builder().id(5).query_str(path).query_format(QueryFormat::JsonPointer).build();
+    let outcome = match router.get(path) {
+        None => "unresolved".to_string(),
+        Some(h) => {
+            let out = if via_view {
+                let w = req.to_vec();
+                catching(|| h.handle_view(&MessageView::from_slice(&w).unwrap(), &CallContext::detached(path)))
+            } else {
+                catching(|| h.handle(&req))
+            };
+            match out {
+                Ok(x) => {
+                    let n = norm(x, &req);
+                    format!("ec={} body_format={} body={}", n.ec, n.body_format, String::from_utf8_lossy(&n.body))
+                }
+                Err(p) => format!("panic:{}", panic_site(&p)),
+            }
+        }
+    };
+    let trace = log.lock().unwrap().clone();
+    (outcome, trace)
+}
+
+fn router_histories(args: &Args, rep: &mut Report, rng: &mut Rng) {
+    const PREFIXES: [&str; 7] = ["/a", "/a/b", "/s", "/ab", "/a", "/s", ""];
+    const SUFFIXES: [&str; 8] = ["", "/y", "/k", "/k/x", "/~1", "/b", "/b/y", "/y"];
+    const ROUTES: [&str; 7] = ["/a/y", "/a", "/s/k", "/q", "", "/a/b/y", "/ab/y"];
+    let nh = args.budget(2500, 60_000).max(3);
+    let (mut lookups, mut same_path_after_reg, mut clone_lookups, mut registrations) = (0u64, 0u64, 0u64, 0u64);
+    for hist in 0..nh {
+        let mut r = rng.fork(0xF0_0000 + hist);
+        let live_log: Log = Arc::new(Mutex::new(vec![]));
+        let mut live = Router::new();
+        let mut regs: Vec<Reg> = vec![];
+        let mut clones: Vec<(Router, Vec<Reg>, usize)> = vec![];
+        let mut ops: Vec<String> = vec![];
+        let mut last_path: Option<String> = None;
+        let mut last_reg: &'static str = "nothing";
+        let mut next_id = 0u32;
+        let gen_path = |r: &mut Rng| -> String {
+            match r.below(10) {
+                0 => r.pick(&["/q", "x", "/", "/abc", "/s~1k"]).to_string(),
+                _ => format!("{}{}", r.pick(&PREFIXES), r.pick(&SUFFIXES)),
+            }
+        };
+        // compare `target` (built by the history) with a router built from scratch from the same registrations
+        let check = |rep: &mut Report, who: &'static str, target: &Router, target_regs: &[Reg], path: &str, via_view: bool, after: &'static str, ops: &[String]| {
+            let ref_log: Log = Arc::new(Mutex::new(vec![]));
+            let mut fresh = Router::new();
+            for reg in target_regs {
+                apply_reg(&mut fresh, reg, &ref_log, false);
+            }
+            let want = ask_router(&fresh, path, via_view, &ref_log);
+            let got = ask_router(target, path, via_view, &live_log);
+            rep.eval();
+            if got != want {
+                let reached = want.1.last().map(|s| s.as_str()).unwrap_or("");
+                let reached = if reached.starts_with("route") { "route" } else if reached.starts_with("struct") { "struct" } else if want.0 == "unresolved" { "unresolved" } else { "registry" };
+                let what = if got.1 != want.1 { "handlers-or-middleware-run-differ" } else { "response-differs" };
+                rep.violation(
+                    format!("C07:router-history:{who}:{what}:{reached}-path:after-registering-{after}"),
+                    format!(
+                        "history {ops:?}: then {who}.get({path:?}) + {}: answered {:?} after running {:?}; a router built from scratch with the same registrations {:?} answers {:?} after running {:?}",
+                        if via_view { "handle_view" } else { "handle" },
+                        got.0,
+                        got.1,
+                        target_regs,
+                        want.0,
+                        want.1
+                    ),
+                    json!({"history": hist, "ops": ops, "path": path, "who": who}),
+                );
+            }
+        };
+        let steps = 5 + r.usize_below(14);
+        let mut shape = vec![];
+        for _ in 0..steps {
+            match r.below(10) {
+                0..=3 => {
+                    let path = match (&last_path, r.below(3)) {
+                        (Some(p), 0) => p.clone(),
+                        _ => gen_path(&mut r),
+                    };
+                    let via_view = r.coin();
+                    ops.push(format!("get {path:?}"));
+                    shape.push(0u8);
+                    check(rep, "router", &live, &regs, &path, via_view, last_reg, &ops);
+                    lookups += 1;
+                    last_path = Some(path);
+                }
+                4 => {
+                    if clones.len() < 2 {
+                        ops.push("clone".into());
+                        shape.push(1);
+                        clones.push((live.clone(), regs.clone(), ops.len()));
+                    }
+                }
+                _ => {
+                    next_id += 1;
+                    let reg = match r.below(8) {
+                        0 | 1 => Reg::Route(r.pick(&ROUTES).to_string(), next_id),
+                        2 | 3 => Reg::Registry(r.pick(&PREFIXES).to_string(), next_id),
+                        4 | 5 => Reg::Struct(r.pick(&PREFIXES).to_string(), next_id),
+                        _ => Reg::Mw(next_id),
+                    };
+                    apply_reg(&mut live, &reg, &live_log, true);
+                    registrations += 1;
+                    last_reg = reg.kind();
+                    ops.push(format!("register {reg:?}"));
+                    shape.push(2 + match reg { Reg::Route(..) => 0, Reg::Registry(..) => 1, Reg::Struct(..) => 2, Reg::Mw(..) => 3 });
+                    regs.push(reg);
+                    // the path looked up just before the registration, then another one
+                    if let Some(p) = last_path.clone() {
+                        if r.below(4) != 0 {
+                            ops.push(format!("get {p:?}"));
+                            check(rep, "router", &live, &regs, &p, r.coin(), last_reg, &ops);
+                            lookups += 1;
+                            same_path_after_reg += 1;
+                        }
+                    }
+                    if r.coin() {
+                        let p = gen_path(&mut r);
+                        ops.push(format!("get {p:?}"));
+                        check(rep, "router", &live, &regs, &p, r.coin(), last_reg, &ops);
+                        lookups += 1;
+                        last_path = Some(p);
+                    }
+                }
+            }
+            // a clone is a router value of its own: it keeps behaving as a router built from the registrations it was cloned with
+            if !clones.is_empty() && r.below(3) == 0 {
+                let (c, c_regs, at) = &clones[r.usize_below(clones.len())];
+                let path = match (&last_path, r.coin()) {
+                    (Some(p), true) => p.clone(),
+                    _ => gen_path(&mut r),
+                };
+                let mut c_ops = ops.clone();
+                c_ops.push(format!("(clone taken after op {at}) get {path:?}"));
+                check(rep, "clone", c, c_regs, &path, r.coin(), last_reg, &c_ops);
+                clone_lookups += 1;
+            }
+        }
+        rep.distinct(&("history", shape));
+        if hist < 2 {
+            rep.sample(json!({"part": "router-history", "ops": ops}));
+        }
+    }
+    rep.set("router_histories", json!(nh));
+    rep.set("router_history_registrations", json!(registrations));
+    rep.set("router_history_lookups_compared", json!(lookups));
+    rep.set("router_history_same_path_lookups_right_after_a_registration", json!(same_path_after_reg));
+    rep.set("router_history_clone_lookups_compared", json!(clone_lookups));
 }
